@@ -115,13 +115,13 @@ func zzStrIntBefore(s, lit string) (int, bool) {
 }
 
 // Monitors exist only in the engine; natively they read as zero.
-func zzMarkShared()               {}
-func zzSharedWrites() int         { return 0 }
-func zzGlobalWrites() int         { return 0 }
-func zzAllocBytes() int           { return 0 }
-func zzSteps() int                { return 0 }
+func zzMarkShared()                {}
+func zzSharedWrites() int          { return 0 }
+func zzGlobalWrites() int          { return 0 }
+func zzAllocBytes() int            { return 0 }
+func zzSteps() int                 { return 0 }
 func zzSetBudget(steps, bytes int) {}
-func zzOrderMode(mode string)     {}
+func zzOrderMode(mode string)      {}
 
 // zzRopeW is the writer handed to Dump: the engine records formatted output
 // symbolically, natively it is a byte buffer.
